@@ -51,6 +51,14 @@ def explore(ctx):
     except Exception as e:
         ctx.broke('table-evaluation', 'Gen.ClangDelta', repr(e)[:2000])
     try:
+        r = coq.eval_terms('c19drv', IMPORTS, [], [
+            'let p := Gen.ClangDelta.driver_skeleton in (bounded (fst p) (snd p), query_safe (fst p) (snd p))'])
+        if 'false' in r[0]:
+            ctx.violation('driver-outputs-under-query', 'TransformationManager::doTransformation can open or write the output (getOutStream / output*Source / closeOutStream) '
+                          'although --query-instances was given: the statement order lets an output call run before the query return', {'function': 'TransformationManager::doTransformation'})
+    except Exception as e:
+        ctx.broke('table-evaluation', 'driver skeleton', repr(e)[:500])
+    try:
         sensitivity(ctx)
     except Exception as e:      # evidence only
         ctx.extra['extractor_sensitivity'] = {'error': repr(e)[:500]}
